@@ -6,6 +6,32 @@ func init() {
 	vHarnesses["VerifC05Flat"] = VerifC05Flat
 	vHarnesses["VerifC05Nest"] = VerifC05Nest
 	vHarnesses["VerifC05Docs"] = VerifC05Docs
+	vHarnesses["VerifC05Precision"] = VerifC05Precision
+}
+
+// VerifC05Precision: list mode with Precision(eps): the diff is empty exactly when Equals holds.
+func VerifC05Precision() {
+	eps := vF64()
+	vAssume(eps >= 0)
+	var a, b JsonNode
+	switch vChoice(3) {
+	case 0:
+		a, b = vNum(), vNum()
+	case 1:
+		a, b = jsonObject{"k": vNum()}, jsonObject{"k": vNum()}
+	default:
+		n := vParam("N", 1)
+		a, b = vNumArray(n), vNumArray(n)
+	}
+	opts := []Option{Precision(eps)}
+	eq := a.Equals(b, opts...)
+	if vKnown("precision.diff") {
+		// listed finding: Diff compares numbers exactly (scalar compare without options, hash-based LCS)
+		vAssume(eq == a.Equals(b))
+	}
+	d := a.Diff(b, opts...)
+	vAssert((len(d) == 0) == eq, "diff emptiness disagrees with Equals under Precision")
+	vCover("c05.precision")
 }
 
 func vC05Check(a, b JsonNode, k int, label string) {
